@@ -159,9 +159,12 @@ def run(ctx):
     ctx.obs = [o for o in ctx.obs if not o.rule.startswith("R2.3")]  # only used to locate the counter field
     ctx.rule_texts.pop("R2.3", None)
     counter = res["INSERT"][0]
+    head = res["INSERT"][1]
     ctx.need(counter is not None, "COUNTER: slot-map occupied counter")
     ms = models(ctx, R)
     ctx.floor("R9.0", "adapter-poll-functions", len(ms), 5)
     r9_1(ctx, R, ms)
     r9_2(ctx, R, ms, counter)
     r9_3(ctx, R, ms)
+    import shared_links
+    shared_links.adapter_links(ctx, R, counter, head)
